@@ -86,7 +86,8 @@ PROPS = {
     ),
     'C12': dict(
         title='Value equality, hashing and ordering are mutually consistent',
-        verus=[],
+        verus=[('u_eq', [r'^Value::<PartialEq>::eq$', r'^Ref::<PartialEq>::eq$', r'^Dict::partial_cmp$', r'^lemma_value_eq_same_kind$',
+                         r'^Value::is_(null|marker|remove|na)$'])],
         kani=[dict(harness='k_number_laws', klass='complete', schema=['f64', 'f64', 'f64'], family='number-laws', target='Number eq/cmp/partial_cmp'),
               dict(harness='k_number_eq_hash', klass='complete', schema=['f64', 'f64'], family='number-hash', target='Number eq/hash'),
               dict(harness='k_number_units_cmp_eq', klass='complete', schema=['u8', 'u8', 'f64', 'f64'], family='number-units', target='Number cmp/eq with units'),
@@ -98,11 +99,14 @@ PROPS = {
         level_text=('Proof (Kani/CBMC, bit-precise, complete over all non-NaN f64): for the hand-written Eq/Hash/Ord/PartialOrd of Number '
                     '(unit-less, and with units drawn from {none, m, s}) and Coord: == is an equivalence and a clone equals its original; '
                     'equal values feed identical byte streams to any Hasher; cmp is antisymmetric, transitive and Equal exactly when == holds; '
-                    'partial_cmp, when it answers, gives cmp\'s answer.'),
-        not_decided=('Ref/Str/Uri/Symbol/XStr (delegate to String), Date/Time/DateTime (chrono), List/Grid (derived / std Vec), '
-                     'the structural lifting through Value and Dict (BTreeMap); rustc derives are assumed lexicographic/structural; '
+                    'partial_cmp, when it answers, gives cmp\'s answer. '
+                    'Proof (Verus) of the lifting through Value: the hand-written 18-arm Value::eq holds exactly when both values are of the same kind and '
+                    'their payloads are equal (value_eq; kinds are disjoint under ==), with Ref compared by id only (real body), and Dict::partial_cmp is '
+                    'always Some of the total order.'),
+        not_decided=('the payload equalities of Str/Uri/Symbol/XStr (derived, delegate to String), Date/Time/DateTime (chrono), List/Dict/Grid (std Vec / BTreeMap) are '
+                     'named but not decided (uninterpreted or assumed structural); the laws of Dict::cmp; Value::hash and the derived Ord of Value; rustc derives are assumed lexicographic/structural; '
                      'units other than the three sampled shapes (Unit::eq/hash compare all fields bitwise).'),
-        technique='contract-based deductive verification: Kani complete symbolic harnesses over all f64 on the real trait impls',
+        technique='contract-based deductive verification: Kani complete symbolic harnesses over all f64 on the real trait impls + Verus postcondition on the real Value::eq',
     ),
     'C02': dict(
         title='Hayson encode -> decode returns the original value',
